@@ -21,6 +21,7 @@ import itertools
 
 from .. import astutil as A
 from ..alg import Interp, Obj, Poly, PyFunc, Undecided, fn, to_poly
+from ..dep import Deps
 
 EXPLANATION = (
     "Every modifier applier registered in histfactory_set is abstractly interpreted (mask present / absent) with the "
@@ -84,7 +85,7 @@ def run(ctx):
     r2 = ctx.rule("C01.R2", "ASM: 'addition' appliers feed the delta list, 'multiplication' appliers the factor list; expected_data = clipB?(sum_samples(clipS?(prod(factors, nominal + sum(deltas))))) with each clip applied iff its bound is not None", "ASM", floor=7)
     r3 = ctx.rule("C01.R3", "DEP: builder.collect marks every bin True iff the sample declares the modifier; undeclared histosys/normsys variations are the nominal / 1.0", "DEP", floor=14)
     r4 = ctx.rule("C01.R4", "FILL: a sample that is absent from a channel gets a nominal of zeros with the channel's bin count (nominal builder and every modifier builder)", "FILL", floor=8)
-    r5 = ctx.rule("C01.R5", "ORDER: mask modifier axis = keys built from the same `modifiers` list as the parameter selection; sample axis = pdfconfig.samples; nominal rates over config.samples; bin-index fields over pdfconfig.channels x channel_nbins", "ORDER", floor=15)
+    r5 = ctx.rule("C01.R5", "ORDER: mask modifier axis = keys built from the same `modifiers` list as the parameter selection; sample axis = pdfconfig.samples; nominal rates over config.samples; bin-index fields over pdfconfig.channels x channel_nbins", "ORDER", floor=12)
     r7 = ctx.rule("C01.R7", "DEP: parameter requirements are registered under the modifier name and appliers select parameters by those names", "DEP", floor=13)
 
     for key, (b, c) in sorted(reg.items()):
@@ -181,16 +182,17 @@ def run(ctx):
     except Undecided as e:
         ctx.unrecognised(r2, mm.methods["__init__"], "__init__", f"not interpretable: {e}")
     mo = mm.methods["modifications"]
-    comps = [(A.unparse(n.generators[0].iter), n) for n in ast.walk(mo.node) if isinstance(n, ast.ListComp)]
-    ret = [r for r in ast.walk(mo.node) if isinstance(r, ast.Return) and r.value is not None]
-    names_ok = ret and isinstance(ret[0].value, ast.Tuple) and [A.dotted(e) for e in ret[0].value.elts] == ["deltas", "factors"]
-    defs = {A.dotted(t): n.value for n in ast.walk(mo.node) if isinstance(n, ast.Assign) for t in n.targets}
-    d_ok = "deltas" in defs and "self._delta_mods" in A.unparse(defs["deltas"]) and ".apply(pars)" in A.unparse(defs["deltas"])
-    f_ok = "factors" in defs and "self._factor_mods" in A.unparse(defs["factors"]) and ".apply(pars)" in A.unparse(defs["factors"])
-    if names_ok and d_ok and f_ok:
-        ctx.holds(r2, f"{PDF}::_MainModel.modifications", "(deltas from _delta_mods, factors from _factor_mods)")
-    else:
-        ctx.violated(r2, mo, "modifications", "modifications() does not return (apply() of the additive appliers, apply() of the multiplicative appliers)", node=mo.node)
+    try:
+        appl = {"a": Obj("A"), "a2": Obj("A2"), "m": Obj("M"), "none": Obj("NONE")}
+        ext = {".apply": lambda recv, a, k: (None if recv.name == "NONE" else Poly.atom(f"apply<{recv.name};{to_poly(a[0])}>"))}
+        out = Interp({"pars": Poly.atom("PARS")}, {"modifiers_appliers": appl, "_delta_mods": ["a", "none", "a2"], "_factor_mods": ["m"]}, {}, cls_name="_MainModel", externals=ext).run(A.strip_docstring(mo.node.body))
+        got = [[str(to_poly(x)) for x in part] for part in out]
+        if got == [["apply<A;PARS>", "apply<A2;PARS>"], ["apply<M;PARS>"]]:
+            ctx.holds(r2, f"{PDF}::_MainModel.modifications", "(apply() of the additive appliers, apply() of the multiplicative appliers), empty appliers dropped")
+        else:
+            ctx.violated(r2, mo, "modifications", "modifications() does not return (apply() of the additive appliers, apply() of the multiplicative appliers)", expected="([A, A2], [M])", found=str(got))
+    except (Undecided, TypeError) as e:
+        ctx.unrecognised(r2, mo, "modifications", f"not interpretable: {e}")
     ed = mm.methods["expected_data"]
     D, F, N = [Poly.atom("D1"), Poly.atom("D2")], [Poly.atom("F1"), Poly.atom("F2")], Poly.atom("NOM")
     for cs, cb in itertools.product((None, Poly.atom("CS")), (None, Poly.atom("CB"))):
@@ -277,64 +279,86 @@ def _absent_nominal(ctx, rid, b, app):
 
 
 def _layout(ctx, r5, r7, key, b, c, init):
+    """Interpret the applier's constructor on a symbolic 2-modifier x 2-sample configuration and read the layout of every
+    tensor it stores: row i must belong to the i-th modifier the parameters are selected for, column j to pdfconfig.samples[j]."""
     site = f"{c.relpath}::{c.name}.__init__"
-    assigns = {}
+    mods = [("mB", key), ("mA", key)]  # deliberately not in sorted order: the applier must keep the order it is given
+    samples = ["sB", "sA"]
+    fields = ["mask", "lo_data", "hi_data", "nom_data", "lo", "hi", "uncrt"]
+    bd = {}
+    for m, t in mods:
+        bd[f"{t}/{m}"] = {s_: {"data": {f_: Poly.atom(f"{f_}@{m}@{s_}") for f_ in fields}} for s_ in samples}
+    seen = {}
+
+    def pv(args, kw):
+        seen["pv"] = args
+        return Obj("PV", {"index_selection": [[[Poly.atom("P0"), Poly.atom("P1")]], [[Poly.atom("P2"), Poly.atom("P3")]]], "indices_concatenated": Poly.atom("IDX")})
+
+    cfg = Obj("pdfconfig", {"samples": list(samples), "channels": ["c1"], "channel_nbins": {"c1": Poly.const(2)}, "npars": Poly.const(4), "par_map": Obj("PARMAP")})
+    attrs = {}
+    env = {"modifiers": list(mods), "pdfconfig": cfg, "builder_data": bd, "batch_size": None, "interpcode": "code0", "pyhf": Obj("pyhf"), "events": Obj("events")}
+    try:
+        Interp(env, attrs, {}, cls_name=c.name, externals={"ParamViewer": pv}).run(A.strip_docstring(init.node.body))
+    except Undecided:
+        pass  # the layout attributes are assigned before the parts outside the fragment (interpolator lookup, index bookkeeping)
+    # parameter selection by modifier names, in `modifiers` order
+    if "pv" in seen and len(seen["pv"]) >= 3 and list(seen["pv"][2]) == ["mB", "mA"] and getattr(seen["pv"][1], "name", "") == "PARMAP":
+        ctx.holds(r7, f"{site}: ParamViewer(..., par_map, names)", "parameters selected by the modifier names in `modifiers` order")
+    else:
+        ctx.violated(r7, init, "ParamViewer(...)", "the applier does not select its parameters by the modifier names (in the order of `modifiers`) from the configuration's par_map", expected="ParamViewer(shape, pdfconfig.par_map, [m for m, _ in modifiers])", found=str(seen.get("pv")), node=init.node)
+    n_t = 0
+    for nm, v in sorted(attrs.items()):
+        tags = _tags(v)
+        if not tags:
+            continue
+        n_t += 1
+        ok = isinstance(v, list) and len(v) == 2 and all(isinstance(r, list) and len(r) == 2 for r in v)
+        if ok:
+            for i, (m, _) in enumerate(mods):
+                for j, s_ in enumerate(samples):
+                    cell = _tags(v[i][j])
+                    if not cell or any(t.split("@")[1:] != [m, s_] for t in cell):
+                        ok = False
+        if ok:
+            ctx.holds(r5, f"{site}: self.{nm}", "tensor[i][j] holds the data of (modifier i of `modifiers`, sample j of pdfconfig.samples)")
+        else:
+            ctx.violated(r5, init, f"self.{nm}", "a modifier tensor is not laid out as [i-th modifier the parameters are selected for][j-th sample of pdfconfig.samples]: a modifier acts with another modifier's parameter or on another sample", expected="rows in `modifiers` order, columns in pdfconfig.samples order", found=str(v)[:160], node=init.node)
+    if n_t == 0:
+        ctx.unrecognised(r5, init, "mask", "no tensor built from builder_data found")
+    # bin-index field over pdfconfig.channels x channel_nbins (structural: uses comprehension variables only)
     for n in ast.walk(init.node):
-        if isinstance(n, ast.Assign):
-            for t in n.targets:
-                d = A.dotted(t)
-                if d:
-                    assigns[d] = n.value
-    keys = assigns.get("keys")
-    mods_name = None
-    for nm, v in assigns.items():
-        if isinstance(v, ast.ListComp) and A.unparse(v.generators[0].iter) == "modifiers" and nm != "keys":
-            mods_name = nm
-    ok_keys = isinstance(keys, ast.ListComp) and A.unparse(keys.generators[0].iter) == "modifiers" and isinstance(keys.elt, ast.JoinedStr)
-    if ok_keys and mods_name:
-        ctx.holds(r5, f"{site}: keys / {mods_name}", "both built from one iteration of `modifiers` (same order)")
-    else:
-        ctx.violated(r5, init, "keys / parameter names", "mask keys and parameter names are not derived from the same `modifiers` list in the same order: row m of the mask belongs to another parameter than row m of the gathered values", node=init.node)
-    # ParamViewer(parfield_shape, pdfconfig.par_map, <mods>)
-    pv = [cc for cc in A.calls_in(init.node) if A.call_attr(cc) == "ParamViewer"]
-    if pv and len(pv[0].args) >= 3 and A.dotted(pv[0].args[2]) == mods_name and "par_map" in A.unparse(pv[0].args[1]):
-        ctx.holds(r7, f"{site}: ParamViewer(..., par_map, {mods_name})", "parameters selected by modifier name")
-    else:
-        ctx.violated(r7, init, "ParamViewer(...)", "the applier does not select its parameters by the modifier names", node=pv[0] if pv else init.node)
-    # masks: [[[... builder_data[m][s] ...] for s in pdfconfig.samples] for m in keys]
-    n_masks = 0
-    for nm, v in assigns.items():
-        if nm.startswith("self._") and ("mask" in nm or "histoset" in nm or "info" in nm) and isinstance(v, (ast.ListComp, ast.Call)):
-            lc = v if isinstance(v, ast.ListComp) else next((x for x in ast.walk(v) if isinstance(x, ast.ListComp)), None)
-            if lc is None:
-                continue
-            outer = A.unparse(lc.generators[0].iter)
-            inner = lc.elt.generators[0].iter if isinstance(lc.elt, ast.ListComp) else None
-            n_masks += 1
-            if outer == "keys" and inner is not None and A.unparse(inner) == "pdfconfig.samples" and "builder_data[m][s]" in A.unparse(lc).replace(" ", ""):
-                ctx.holds(r5, f"{site}: {nm}", "axes (keys, pdfconfig.samples)")
-            else:
-                ctx.violated(r5, init, nm, "a modifier tensor is not laid out as [modifier key][sample in pdfconfig.samples]: it is combined with nominal rates / masks laid out in a different order", expected="[[... for s in pdfconfig.samples] for m in keys]", found=A.short(lc, 100), node=lc)
-    if n_masks == 0:
-        ctx.unrecognised(r5, init, "mask", "no mask comprehension found")
-    for nm, v in assigns.items():
-        if nm == "global_concatenated_bin_indices":
-            txt = A.unparse(v).replace(" ", "")
-            if "forcinpdfconfig.channelsforjinrange(pdfconfig.channel_nbins[c])" in txt:
+        if isinstance(n, ast.ListComp) and len(n.generators) == 2 and A.unparse(n.generators[0].iter) == "pdfconfig.channels" and isinstance(n.generators[1].iter, ast.Call) and A.call_attr(n.generators[1].iter) == "range":
+            cv = A.unparse(n.generators[0].target)
+            if f"pdfconfig.channel_nbins[{cv}]" in A.unparse(n.generators[1].iter) and A.unparse(n.elt) == A.unparse(n.generators[1].target):
                 ctx.holds(r5, f"{site}: bin-index field", "over pdfconfig.channels x channel_nbins[c]")
             else:
-                ctx.violated(r5, init, nm, "the per-bin index field is not laid out over pdfconfig.channels with channel_nbins", found=A.short(v, 100), node=v)
+                ctx.violated(r5, init, n, "the per-bin index field is not laid out over pdfconfig.channels with channel_nbins", found=A.short(n, 100), node=n)
     # builder registers requirements under the modifier name
-    regs = []
-    for m in b.methods.values():
-        for cc in A.calls_in(m.node):
-            if A.call_attr(cc) == "setdefault" and "required_parsets" in (A.dotted(cc.func.value) or ""):
-                regs.append((m, cc))
+    app = b.methods.get("append")
+    regs = [(m, cc) for m in b.methods.values() for cc in A.calls_in(m.node) if A.call_attr(cc) == "setdefault" and "required_parsets" in (A.dotted(cc.func.value) or "")]
     if not regs:
         ctx.unrecognised(r7, b, b.name, "no required_parsets registration")
     for m, cc in regs:
-        k = A.unparse(cc.args[0])
-        if k in ("thismod['name']", "parname"):
-            ctx.holds(r7, f"{b.relpath}::{b.name}.{m.name}", f"requirement registered under {k}")
+        k = cc.args[0]
+        kt = A.unparse(k)
+        d = Deps(m.node)
+        okk = "['name']" in kt
+        if not okk and isinstance(k, ast.Name):
+            for dv in d.defs.get(k.id, []):
+                # <key of builder_data>.split('/')[1]  -> the name part of 'type/name'
+                if isinstance(dv, ast.Subscript) and A.const_value(dv.slice) == 1 and isinstance(dv.value, ast.Call) and A.call_attr(dv.value) == "split":
+                    okk = True
+        if okk:
+            ctx.holds(r7, f"{b.relpath}::{b.name}.{m.name}", "requirement registered under the modifier's name")
         else:
-            ctx.violated(r7, m, cc, "the parameter requirement is not registered under the modifier's name: modifiers of the same name no longer share one parameter", expected="thismod['name']", found=k, node=cc)
+            ctx.violated(r7, m, cc, "the parameter requirement is not registered under the modifier's name: modifiers of the same name no longer share one parameter", expected="thismod['name']", found=kt, node=cc)
+
+
+def _tags(v):
+    out = []
+    if isinstance(v, Poly):
+        out += [a for a in v.atoms() if "@" in a]
+    elif isinstance(v, (list, tuple)):
+        for x in v:
+            out += _tags(x)
+    return out
